@@ -42,6 +42,7 @@ func verifHarness_U3_Stage1Driver() {
 	pj.indexChans = make(chan indexChan, indexSlots-2)
 	if verifChoice("ndjson", 2) == 1 {
 		pj.ndjson = 1
+		verifWantNdjson = 1
 	}
 	ok := pj.findStructuralIndices()
 	verifReach("U3.returned")
